@@ -174,7 +174,7 @@ func c02Gen(r *rand.Rand, lane string) *c02Case {
 	var sb strings.Builder
 	flags := ""
 	if core.Chance(r, 1, 3) {
-		flags = core.Pick(r, "i", "s", "is", "si")
+		flags = core.Pick(r, "i", "s", "is", "si", "i", "s", "is", "I", "S", "sI", "Is", "İ", "ii", "m", "U", "i s")
 		sb.WriteString("##!+ " + flags + "\n")
 	}
 	entry := func() string {
